@@ -3,12 +3,7 @@ package tagstore
 
 import (
 	"context"
-	"net/http"
-	"os"
-	"path/filepath"
-	"sort"
 
-	"github.com/go-chi/chi"
 	"github.com/uber-go/tally"
 	"github.com/uber/kraken/core"
 	"github.com/uber/kraken/lib/backend"
@@ -22,119 +17,14 @@ import (
 // queue is a sqlite table, not a file under the store directory).
 type verifWB struct{}
 
-func (verifWB) Add(persistedretry.Task) error                     { return nil }
-func (verifWB) SyncExec(persistedretry.Task) error                { return nil }
-func (verifWB) Close()                                            {}
-func (verifWB) Find(interface{}) ([]persistedretry.Task, error)   { return nil, nil }
+func (verifWB) Add(persistedretry.Task) error                   { return nil }
+func (verifWB) SyncExec(persistedretry.Task) error              { return nil }
+func (verifWB) Close()                                          {}
+func (verifWB) Find(interface{}) ([]persistedretry.Task, error) { return nil, nil }
 
 const (
-	verifPutDigest   = "sha256:1111111111111111111111111111111111111111111111111111111111111111"
-	verifDecoyDigest = "sha256:2222222222222222222222222222222222222222222222222222222222222222"
+	verifPutDigest = "sha256:1111111111111111111111111111111111111111111111111111111111111111"
 )
-
-// verifRequest builds the request a chi router hands to a handler whose
-// pattern contains {name}: the raw (still escaped) path segment sits in the
-// route context.
-func verifRequest(name, raw string) *http.Request {
-	rctx := chi.NewRouteContext()
-	rctx.URLParams.Add(name, raw)
-	r := &http.Request{}
-	return r.WithContext(context.WithValue(context.Background(), chi.RouteCtxKey, rctx))
-}
-
-// verifRawParam is a symbolic raw path segment as the router delivers it: any
-// bytes except '/', whose decoded form is drawn from a small alphabet that
-// contains every byte the path handling code distinguishes.
-func verifRawParam(param string) (string, error) {
-	maxLen := verif.Bound("raw-len", 4, 6)
-	n := verif.Len("n", 1, maxLen)
-	raw := verif.String("raw", n)
-	for i := 0; i < n; i++ {
-		verif.Assume(raw[i] != '/')
-	}
-	val, err := httputil.ParseParam(verifRequest(param, raw), param)
-	if err != nil {
-		return "", err
-	}
-	wide := verif.Bound("wide-alphabet", 0, 1) == 1
-	for i := 0; i < len(val); i++ {
-		c := val[i]
-		if wide {
-			verif.Assume(verif.Or(c == '/', c == '.', c == 'a', c == '%', c == '\\'))
-		} else {
-			verif.Assume(verif.Or(c == '/', c == '.', c == 'a'))
-		}
-	}
-	verif.Cover("decoded-shorter", len(val) < n)
-	return val, nil
-}
-
-type verifTree struct {
-	top   string   // everything the harness owns lives below top
-	roots []string // store directories
-}
-
-// verifLayout nests the store three levels deep so that dot-dot escapes of
-// the bounded names stay inside the harness' own directory natively, and
-// plants a decoy data file in every ancestor.
-func verifLayout() verifTree {
-	top := filepath.Join(verif.TempDir(), "c11")
-	base := filepath.Join(top, "l1", "l2", "l3")
-	must(os.MkdirAll(base, 0o775))
-	for _, d := range []string{base, filepath.Dir(base), filepath.Dir(filepath.Dir(base)), top} {
-		must(os.WriteFile(filepath.Join(d, "data"), []byte(verifDecoyDigest), 0o664))
-	}
-	return verifTree{top: top, roots: []string{filepath.Join(base, "upload"), filepath.Join(base, "cache")}}
-}
-
-func must(err error) {
-	if err != nil {
-		panic(err)
-	}
-}
-
-// outside lists every file-system entry below top that is not inside a store
-// directory, with its content.
-func (t verifTree) outside() []string {
-	var out []string
-	var walk func(dir string)
-	walk = func(dir string) {
-		ents, err := os.ReadDir(dir)
-		must(err)
-		for _, e := range ents {
-			p := filepath.Join(dir, e.Name())
-			isRoot := false
-			for _, r := range t.roots {
-				if p == r {
-					isRoot = true
-				}
-			}
-			if isRoot {
-				continue
-			}
-			if e.IsDir() {
-				out = append(out, p+"/")
-				walk(p)
-				continue
-			}
-			b, err := os.ReadFile(p)
-			must(err)
-			out = append(out, p+"="+string(b))
-		}
-	}
-	walk(t.top)
-	sort.Strings(out)
-	return out
-}
-
-func verifSame(label string, a, b []string) {
-	verif.Assert(label, len(a) == len(b))
-	for i := range a {
-		if i < len(b) {
-			verif.Assert(label, a[i] == b[i])
-		}
-	}
-}
 
 // VerifTagNameConfined: build-index PUT /tags/{tag}/digest/{d} followed by
 // GET /tags/{tag}, from path-parameter parsing down to the file system: no tag
@@ -148,20 +38,20 @@ func VerifTagNameConfined() { verifTagFlow(false) }
 func VerifFindingTagDotDot() { verifTagFlow(true) }
 
 func verifTagFlow(finding bool) {
-	t := verifLayout()
+	t := httputil.KseLayout()
 	fs, err := store.NewSimpleStore(store.SimpleStoreConfig{
-		UploadDir:     t.roots[0],
-		CacheDir:      t.roots[1],
+		UploadDir:     t.Roots[0],
+		CacheDir:      t.Roots[1],
 		UploadCleanup: store.CleanupConfig{Disabled: true},
 		CacheCleanup:  store.CleanupConfig{Disabled: true},
 	}, tally.NoopScope)
-	must(err)
+	httputil.KseMust(err)
 	ts := New(Config{}, fs, &backend.Manager{}, verifWB{})
 	d, err := core.ParseSHA256Digest(verifPutDigest)
-	must(err)
-	before := t.outside()
+	httputil.KseMust(err)
+	before := t.Outside()
 
-	tag, err := verifRawParam("tag")
+	tag, err := httputil.KseRawParam("tag")
 	if err != nil {
 		verif.Reach("rejected-by-parse")
 		return
@@ -172,12 +62,12 @@ func verifTagFlow(finding bool) {
 	perr := ts.Put(context.Background(), tag, d, 0)
 	verif.Cover("put-ok", perr == nil)
 	verif.Cover("put-rejected", perr != nil)
-	verifSame("put-leaves-outside-untouched", before, t.outside())
+	httputil.KseSame("put-leaves-outside-untouched", before, t.Outside())
 
 	got, gerr := ts.Get(tag)
 	verif.Cover("get-ok", gerr == nil)
 	if gerr == nil {
-		verif.Assert("get-never-returns-outside-content", got.String() != verifDecoyDigest)
+		verif.Assert("get-never-returns-outside-content", got.String() != httputil.KseDecoy)
 	}
-	verifSame("get-leaves-outside-untouched", before, t.outside())
+	httputil.KseSame("get-leaves-outside-untouched", before, t.Outside())
 }
